@@ -1,0 +1,35 @@
+//go:build verif
+
+package mavl
+
+// Verification hook (add-only): read-only dump of a tree's node structure.
+
+// VerifNode is one node of a tree in pre-order (node, left sub-tree, right sub-tree).
+type VerifNode struct {
+	Key    []byte
+	Value  []byte
+	Height int32
+	Size   int32
+	Leaf   bool
+}
+
+// VerifDump returns every node reachable from the root in pre-order, loading
+// persisted children through the node database exactly like get/set do.
+func (t *Tree) VerifDump() []VerifNode {
+	var out []VerifNode
+	if t.root == nil {
+		return out
+	}
+	var walk func(n *Node)
+	walk = func(n *Node) {
+		leaf := n.height == 0
+		out = append(out, VerifNode{Key: n.key, Value: n.value, Height: n.height, Size: n.size, Leaf: leaf})
+		if leaf {
+			return
+		}
+		walk(n.getLeftNode(t))
+		walk(n.getRightNode(t))
+	}
+	walk(t.root)
+	return out
+}
